@@ -389,8 +389,24 @@ func (h *history) step(i int) {
 			return
 		}
 		sys := sliceOf(r, r.Intn(7))
+		sid := r.Intn(65536)
+		if r.Chance(1, 3) {
+			// the values the message already carries, in the caller's own buffer (a re-stamp that changes nothing, or only one of the two)
+			var cur []byte
+			real.Try(func() { cur = p.data.SystemBytes() })
+			sys = sliceOf(r, len(cur))
+			copy(sys, cur)
+			if r.Bool() {
+				real.Try(func() {
+					if v := p.data.SessionID(); v >= 0 {
+						sid = v
+					}
+				})
+			}
+			note("system-bytes-arg-equal-to-the-current-ones")
+		}
 		o := real.Try(func() {
-			h.add(&pooled{kind: "data", data: p.data.SetSessionIDAndSystemBytes(r.Intn(65536), sys), kinds: p.kinds, base: p.base}, op)
+			h.add(&pooled{kind: "data", data: p.data.SetSessionIDAndSystemBytes(sid, sys), kinds: p.kinds, base: p.base}, op)
 		})
 		if !o.Panicked && len(sys) > 0 {
 			scribbleBytes(sys)
